@@ -380,6 +380,8 @@ static void ep4_mul_reg_imp(ep4_t r, const ep4_t p, const bn_t k) {
 	size_t l, n;
 
 	bn_null(_k);
+	ep4_null(u);
+	ep4_null(v);
 
 	RLC_TRY {
 		bn_new(_k);
